@@ -162,6 +162,24 @@ func (d *Describer) val(v ssa.Value, depth int) string {
 			return "<-" + d.val(x.X, depth)
 		}
 	case *ssa.BinOp:
+		if x.Op == token.SUB {
+			// (one of a, b) - c is one of a-c, b-c, and a-a is 0: a clamp written as
+			// `pad, ofs = act, 0; if pad < min { pad, ofs = min, min-act }` and as
+			// `pad := max(act, min); ofs := pad - act` have one descriptor
+			xs, ys := d.val(x.X, depth+1), d.val(x.Y, depth+1)
+			if ops := choiceOperands(x.X); len(ops) > 1 && !strings.HasPrefix(ys, "phi{") {
+				var out []string
+				for _, o := range ops {
+					if o == x.Y {
+						out = append(out, "0")
+					} else {
+						out = append(out, "("+d.val(o, depth+2)+"-"+d.val(x.Y, depth+2)+")")
+					}
+				}
+				return mkPhi(out)
+			}
+			return "(" + xs + "-" + ys + ")"
+		}
 		return "(" + d.val(x.X, depth+1) + x.Op.String() + d.val(x.Y, depth+1) + ")"
 	case *ssa.Convert:
 		return d.val(x.X, depth)
@@ -274,6 +292,11 @@ func (d *Describer) val(v ssa.Value, depth int) string {
 			parts = append(parts, s)
 		}
 		sort.Strings(parts)
+		for _, s := range parts {
+			if strings.HasPrefix(s, "phi{") {
+				return mkPhi(parts) // a leaf that is itself a choice (min/max, a distributed difference)
+			}
+		}
 		return "phi{" + strings.Join(parts, "|") + "}"
 	}
 	return fmt.Sprintf("?%T", v)
@@ -521,7 +544,86 @@ func localBuffer(v ssa.Value, depth int) bool {
 	return false
 }
 
+// choiceOperands: the values a min/max call or a two-way merge chooses from.
+func choiceOperands(v ssa.Value) []ssa.Value {
+	switch x := v.(type) {
+	case *ssa.Call:
+		if b, ok := x.Call.Value.(*ssa.Builtin); ok && (b.Name() == "min" || b.Name() == "max") {
+			return x.Call.Args
+		}
+	case *ssa.Phi:
+		for _, e := range x.Edges {
+			if _, nested := e.(*ssa.Phi); nested {
+				return nil
+			}
+		}
+		return x.Edges
+	}
+	return nil
+}
+
+// phiParts splits a "phi{a|b|…}" descriptor at its top level.
+func phiParts(s string) ([]string, bool) {
+	if !strings.HasPrefix(s, "phi{") || !strings.HasSuffix(s, "}") {
+		return nil, false
+	}
+	body := s[4 : len(s)-1]
+	var parts []string
+	depth, start := 0, 0
+	for i, r := range body {
+		switch r {
+		case '(', '{', '[':
+			depth++
+		case ')', '}', ']':
+			depth--
+			if depth < 0 {
+				return nil, false // "phi{…}…}" is not one phi
+			}
+		case '|':
+			if depth == 0 {
+				parts = append(parts, body[start:i])
+				start = i + 1
+			}
+		}
+	}
+	if depth != 0 {
+		return nil, false
+	}
+	return append(parts, body[start:]), true
+}
+
+// mkPhi: "one of these values", nested choices flattened, duplicates removed, sorted.
+func mkPhi(parts []string) string {
+	set := map[string]bool{}
+	for _, p := range parts {
+		if sub, ok := phiParts(p); ok {
+			for _, q := range sub {
+				set[q] = true
+			}
+			continue
+		}
+		set[p] = true
+	}
+	var out []string
+	for p := range set {
+		out = append(out, p)
+	}
+	sort.Strings(out)
+	if len(out) == 1 {
+		return out[0]
+	}
+	return "phi{" + strings.Join(out, "|") + "}"
+}
+
 func (d *Describer) call(c *ssa.CallCommon, depth int) string {
+	if b, ok := c.Value.(*ssa.Builtin); ok && (b.Name() == "min" || b.Name() == "max") && len(c.Args) >= 1 {
+		// the builtin and the hand-written clamp (`if a < b { a = b }`) both yield one of their operands
+		var parts []string
+		for _, a := range c.Args {
+			parts = append(parts, d.val(a, depth+1))
+		}
+		return mkPhi(parts)
+	}
 	if b, ok := c.Value.(*ssa.Builtin); ok && (b.Name() == "len" || b.Name() == "cap") && len(c.Args) == 1 && localBuffer(c.Args[0], 0) {
 		// how a local buffer was put together (make+copy or append) is not part of the key
 		return b.Name() + "(local)"
